@@ -183,7 +183,11 @@ def _symbolise(V, wn, syms, o):
     _set(V, syms, wn.get_node('T1'), '_min_vol', 'minvol_T1', 0, 100)
     if o['quality']:
         _set(V, syms, wn.get_node('T1'), '_bulk_coeff', 'bulk_T1', -1e-3, 0)
-        _set(V, syms, wn.get_node('T2'), '_mixing_fraction', 'mixfrac_T2', 0.05, 0.95)
+        from wntr.epanet.util import MixType as _Mix
+        if wn.get_node('T2').mixing_model is not _Mix.TwoComp:
+            wn.get_node('T2').mixing_fraction = None      # the compartment fraction belongs to the 2COMP model only (the INP format has no place for it otherwise)
+        elif 'T2' not in (o.get('mixfrac') or {}):
+            _set(V, syms, wn.get_node('T2'), '_mixing_fraction', 'mixfrac_T2', 0.05, 0.95)
     for rn, r in wn.reservoirs():
         _set(V, syms, r.head_timeseries, '_base', 'head_' + rn, 0, 3000)
     for pn, p in wn.pipes():
